@@ -36,7 +36,9 @@ for sp in specs:
             # binders before the colon: turn `(x : T) ... : S` into forall
             b, s = stmt.split(":", 1) if stmt.startswith("(") is False else (None, None)
             raise SystemExit(f"{n}: binder-style statements are not supported, restate with forall")
-        out.append(f"Theorem {pid}_{n} {stmt}.\nProof. exact {n}. Qed.\n")
+        # inside a Section the proved lemma is generalised over the section variables it uses: `apply` instantiates them
+        tac = f"apply {n}" if section else f"exact {n}"
+        out.append(f"Theorem {pid}_{n} {stmt}.\nProof. {tac}. Qed.\n")
         names.append(f"{pid}_{n}")
 if section:
     out.append(f"End {pid}_statements.\n")
